@@ -396,6 +396,13 @@ def _t_start(self):
             orig_run()
         except SimExit:
             pass
+        except BaseException:  # noqa: B902
+            # report while this thread still holds the baton: the interpreter's own reporting would
+            # run after the hand-over, concurrently with the next thread (it opens source files)
+            try:
+                threading.excepthook(threading.ExceptHookArgs((*sys.exc_info(), self)))
+            except BaseException:  # noqa: B902
+                pass
         finally:
             r.done = True
             if k.active:
